@@ -344,6 +344,9 @@ def run(c, chk):
     from . import c09 as _c09
     _c09.untitled_does_not_end_search(c, _c08.chk_proxy(chk, {'R9.9': 'R11.11'}), ex)
 
+    # ---- R11.14 / R11.15: what stands behind a qualifier, and behind the last separator
+    step_boundaries(c, chk, ex, sec)
+
     # ---- R11.13: the name looked up for a step is the whole step
     whole_step_looked_up(c, chk, ex, sec)
 
@@ -358,6 +361,7 @@ def run(c, chk):
     stepf, hdr = step_loop(c, sec)
     nq = 0
     badq = None
+    bad_extra = {}
     for p in _loops.iterate(ex, stepf, hdr):
         if p.end == 'cut':
             continue
@@ -373,6 +377,33 @@ def run(c, chk):
                         for cn, t, _ in p.assume)
             if not whole:
                 badq = (p, 'an index qualifier is used although the characters after the number were not required to be the end of the qualifier (e.g. "multi=1x" resolves like "multi=1")')
+            # (a') ... and only when the qualifier had a digit at all (the end pointer moved)
+            digits = any(cn[0] == 'icmp' and cn[1] in ('eq', 'ne') and {sym.norm(cn[2]), sym.norm(cn[3])} == {sym.norm(('ld', endp)), sym.norm(e.args[0])} and ((cn[1] == 'ne') == t)
+                         for cn, t, _ in p.assume)
+            if whole and not digits:
+                bad_extra.setdefault('no-digits', (p, 'an index qualifier without a single digit is taken for index 0: the end pointer of the conversion is never compared with the start '
+                                                      'of the qualifier (multi=\'\'|v resolves to the first instance)'))
+            # (a'') ... and only when the number is an index the option can have: the accessor takes an unsigned int, the
+            # conversion yields a long - without a bound the high bits are cut off (multi=4294967296 is instance 0)
+            for x in used:
+                a = x.args[1]
+                narrowed = a[0] == 'bin' and a[1] == 'trunc'
+                bounded = False
+                for cn, t, _ in p.assume:
+                    if cn[0] != 'icmp' or not sym.mentions(cn, lambda v: v == e.res):
+                        continue
+                    if sym.mentions(cn, lambda v: v[0] == 'bin' and v[1] == 'trunc'):
+                        continue          # a test of the narrowed value says nothing about the bits cut off
+                    lo, hi = (cn[2], cn[3]) if sym.mentions(cn[2], lambda v: v == e.res) else (cn[3], cn[2])
+                    left = sym.mentions(cn[2], lambda v: v == e.res)
+                    upper = (left and ((cn[1] in ('slt', 'sle', 'ult', 'ule') and t) or (cn[1] in ('sge', 'sgt', 'uge', 'ugt') and not t))) or \
+                        (not left and ((cn[1] in ('sgt', 'sge', 'ugt', 'uge') and t) or (cn[1] in ('sle', 'slt', 'ule', 'ult') and not t)))
+                    if upper and (sym.is_const(hi) and 0 <= hi[1] <= 0xffffffff or sym.mentions(hi, lambda v: (v[0] == 'call' and v[1] == 'cfg_opt_size') or
+                                                                                                   (v[0] == 'ld' and v[1][0] == 'fld' and v[1][3] == 'nvalues'))):
+                        bounded = True
+                if narrowed and not bounded:
+                    bad_extra.setdefault('index-narrowed', (p, 'the number of an index qualifier (a long) is handed to the accessor as unsigned int without an upper bound having been '
+                                                               'established: multi=4294967296 resolves to instance 0 instead of "not found"'))
         # (b) the instance index of this step never comes from the previous step
         for x in p.events:
             if x.kind == 'call' and x.name == 'cfg_opt_getnsec' and sym.mentions(x.args[1], lambda v: v == ('p', 'i')):
@@ -385,6 +416,8 @@ def run(c, chk):
                  witness=['path condition: ' + fp.cond_text(badq[0], 6)])
     else:
         chk.ok('R11.5', 'cfg_getopt_secidx: qualifiers', '%d index-qualifier paths require *endptr == 0; no step reads the previous step\'s instance index' % nq, sample=True)
+    for k_, (p_, msg_) in sorted(bad_extra.items()):
+        chk.fail('R11.5', 'qualifier:' + k_, c.where(sec), 'cfg_getopt_secidx(): ' + msg_, witness=['path condition: ' + fp.cond_text(p_, 6)])
     chk.floor('R11.5 index-qualifier paths', nq, 1)
 
     # ---- R11.4 ------------------------------------------------------------------------------
@@ -485,6 +518,97 @@ def step_loop(c, secf):
     raise report.Broken('cfg_getopt_secidx(): step loop not found')
 
 
+_PB = {}
+
+
+def _parser_checks_boundary(c, ex, name):
+    """The other place the boundary of a quoted qualifier can be enforced: the title parser itself.  True when every path of it
+    that returns a title after the closing quote of a quoted qualifier has, after recognising that quote, shown a byte to be
+    the separator or the end of the string"""
+    key = (id(c), name)
+    if key in _PB:
+        return _PB[key]
+    f = c.func(name)
+    n = 0
+    ok = f is not None
+    for p in (ex.explore(f) if f is not None else ()):
+        if p.end != 'ret' or p.retval in (sym.C0, None):
+            continue
+        qpos = [k for k, (cn, t, _) in enumerate(p.assume) if cn[0] == 'icmp' and cn[1] in ('eq', 'ne') and ('c', 39) in (cn[2], cn[3]) and ((cn[1] == 'eq') == t)]
+        if len(qpos) < 2:
+            continue          # unquoted: the scan stops at the separator or the end by construction (R11.10)
+        n += 1
+        if not any(cn[0] == 'icmp' and cn[1] in ('eq', 'ne') and ((cn[1] == 'eq') == t) and (('c', 124) in (cn[2], cn[3]) or sym.C0 in (cn[2], cn[3]))
+                   and sym.mentions(cn, lambda v: v[0] == 'ld') for cn, t, _ in p.assume[qpos[-1] + 1:]):
+            ok = False
+    _PB[key] = ok and n > 0
+    return _PB[key]
+
+
+def step_boundaries(c, chk, ex, sec):
+    """R11.14: "malformed quoting": behind the closing quote of a quoted qualifier stands the separator or the end of the path -
+    the resolver tests that byte before it goes on (an unquoted qualifier ends at such a byte by construction).
+    R11.15: "stray separators at either end": a path does not resolve when nothing stands behind its last separator - a
+    resolved return that has skipped separators and then met the end of the string has shown that none was skipped"""
+    chk.rule('R11.14', 'after a qualifier the resolver goes on only when the next byte was tested to be the separator or the end of the path (name=\'a\'junk is malformed, not "a, then junk")')
+    chk.rule('R11.15', 'a path that ends in a separator does not resolve: no resolved return has skipped separators and found the end of the string behind them without showing that none was there')
+    stepf, hdr = step_loop(c, sec)
+    parsers = set()
+    for p in ex.explore(stepf):
+        for e in p.events:
+            a0 = e.args[0] if e.kind == 'call' and e.args else None
+            if e.kind == 'call' and e.name not in ('strspn', 'strcspn') and c.func(e.name) is not None and a0 is not None and a0[0] == 'idx' and a0[2][0] == 'bin' and a0[2][1] == 'add' \
+                    and a0[2][2][0] == 'call' and a0[2][2][1] == 'strcspn' and a0[2][3] == ('c', 1):
+                parsers.add(e.name)
+    n14 = n15 = 0
+    bad14 = bad15 = None
+    for p in ex.explore(stepf):
+        if p.end != 'ret' or p.retval in (sym.C0, None):
+            continue
+        # R11.14
+        for e in p.events:
+            if e.kind == 'call' and e.name in parsers and len(e.args) > 1:
+                ok_title = any((lambda na: na is not None and na[0] == e.res and na[1] is False)(fp.is_null_assumption(cn, t)) for cn, t, _ in p.assume)
+                if not ok_title:
+                    continue
+                n14 += 1
+                lenslot = e.args[1]
+                tested = False
+                for cn, t, _ in p.assume[e.seq:]:
+                    if cn[0] == 'icmp' and cn[1] in ('eq', 'ne') and (('c', 124) in (cn[2], cn[3]) or sym.C0 in (cn[2], cn[3])):
+                        other = cn[2] if (cn[3] == ('c', 124) or cn[3] == sym.C0) else cn[3]
+                        if sym.mentions(other, lambda v: v[0] == 'ld' and v[1] == lenslot) and sym.mentions(other, lambda v: v == e.args[0] or (v[0] == 'idx' and v[1] == e.args[0])):
+                            if (cn[1] == 'eq') == t:     # the byte IS the separator / the end on this path
+                                tested = True
+                if not tested and not _parser_checks_boundary(c, ex, e.name):
+                    bad14 = bad14 or (p, e)
+        # R11.15
+        skips = [e for e in p.events if e.kind == 'call' and e.name == 'strspn' and len(e.args) > 1 and e.args[1][0] == 'str' and e.fn == stepf.name]
+        if skips:
+            e = skips[-1]
+            behind = ('idx', e.args[0], e.res)
+            nul_behind = any(cn[0] == 'icmp' and cn[1] in ('eq', 'ne') and sym.C0 in (cn[2], cn[3]) and ((cn[1] == 'eq') == t) and
+                             sym.mentions(cn, lambda v: v[0] == 'ld' and sym.norm(v[1]) == sym.norm(behind)) for cn, t, _ in p.assume[e.seq:])
+            if nul_behind:
+                n15 += 1
+                none_skipped = any(cn[0] == 'icmp' and cn[1] in ('eq', 'ne') and sym.C0 in (cn[2], cn[3]) and e.res in (cn[2], cn[3]) and ((cn[1] == 'eq') == t) for cn, t, _ in p.assume)
+                if not none_skipped:
+                    bad15 = bad15 or (p, e)
+    if bad14 is not None:
+        p, e = bad14
+        chk.fail('R11.14', 'qualifier-boundary', c.where(e.ins), '%s() goes on behind a qualifier without having tested the byte that follows it: text glued to the closing quote of a quoted '
+                 'qualifier is taken for the next step (t=\'a\'v resolves like t=a|v)' % stepf.name, witness=['path condition: ' + fp.cond_text(p, 6)])
+    elif n14:
+        chk.ok('R11.14', '%d resolved paths through a qualifier' % n14, 'on each the byte behind the qualifier was shown to be the separator or the end of the path')
+    if bad15 is not None:
+        p, e = bad15
+        chk.fail('R11.15', 'trailing-separator', c.where(e.ins), '%s() resolves a path on which it skipped separators and then met the end of the string, without having shown that there was '
+                 'no separator to skip: "single|" and "multi=1|" resolve although nothing stands behind the separator' % stepf.name, witness=['path condition: ' + fp.cond_text(p, 6)])
+    elif n15 or skips is not None:
+        chk.ok('R11.15', 'resolved paths that reach the end of the string', 'none of them has skipped a separator just before')
+    chk.floor('R11.14 resolved paths through a qualifier', n14, 1)
+
+
 def whole_step_looked_up(c, chk, ex, sec):
     """R11.13: a step of a path names an option by its whole text up to the separator.  The name handed to the leaf lookup is a
     copy of exactly that text (strndup(name, len)) - or, when it is put into a buffer of fixed size, the path has shown that
@@ -552,15 +676,26 @@ def quoted_title_accepted(c, chk, ex):
         for cn, t, _ in p.assume:
             if cn[0] == 'icmp' and cn[1] in ('eq', 'ne') and ('c', 92) in (cn[2], cn[3]) and ((cn[1] == 'eq') == t):
                 backslashes.append(place(cn[2] if cn[3] == ('c', 92) else cn[3]))
-        for cn, t, _ in p.assume:
+        last_quote = -1
+        for k, (cn, t, _) in enumerate(p.assume):
             if cn[0] == 'icmp' and cn[1] in ('eq', 'ne') and ('c', 39) in (cn[2], cn[3]) and ((cn[1] == 'eq') == t):
                 b, o = place(cn[2] if cn[3] == ('c', 39) else cn[3])
                 escaped = any(b2 is not None and b is not None and sym.norm(b2) == sym.norm(b) and o2 is not None and o is not None and o2.add(_bs.Lin(1)).eq(o)
                               for b2, o2 in backslashes)
                 if not escaped:          # (a quote right behind a backslash is an escaped quote, part of the title)
                     quotes += 1
+                    last_quote = k
         if quotes < 2:
             continue          # opening quote only (or no quote at all)
+        # text glued to the closing quote: the qualifier is not well formed (R11.14) - a byte looked at after the closing quote
+        # was shown to be neither the separator nor the end of the string
+        after = p.assume[last_quote + 1:]
+
+        def shown_not(const):
+            return any(cn[0] == 'icmp' and cn[1] in ('eq', 'ne') and const in (cn[2], cn[3]) and ((cn[1] == 'ne') == t) and sym.mentions(cn, lambda v: v[0] == 'ld')
+                       for cn, t, _ in after)
+        if shown_not(('c', 124)) and shown_not(sym.C0):
+            continue
         n += 1
         if p.retval == sym.C0 and not _c07.is_alloc_failure_path(p):
             bad = bad or p
